@@ -10,7 +10,7 @@ def run(rep, tier, seed):
     pr = vlib.coq_check('C02'); rep.add_proof(pr)
     if not pr['ok']:
         rep.violation({'kind': 'proof-broken', 'log': pr['log'][-3000:], 'forbidden': pr['forbidden']}, suffix='no-failing-input-found')
-    nh, nops, mp = (8, 30, 110) if tier == 'quick' else (200, 60, 100000)
+    nh, nops, mp = (8, 30, 110) if tier == 'quick' else (96, 60, 100000)
     k3check.run_crash(rep, 'C02', tier, seed, ['min', 'dirahead', 'torn'], nh, nops, mp, OPTS, known_sig=known_sig)
     rep.cov['rule'] = ('write histories with mixed sync/non-sync batches, flushes, compactions, reopen; at every (sampled in quick) syscall '
                        'boundary three images allowed by the crash model are materialised (minimal: every file cut to its last-fsync length and '
